@@ -146,7 +146,14 @@ Definition bounds_T (go : grid_opts) (N : nat) (Tvar : bool) (T : F) (Tl t0l : l
              else []))
       ++ fixedr
   | GFree => minmax_rows go (Z.of_nat k) (nth k Tl o0) ++ fixedr
-  | GNodes _ => fixedr
+  | GNodes _ =>
+      (* FunctionGrid / DensityGrid: every interval is bounded (the nodes are not ordered by length) *)
+      let nrm := normalized gs N in
+      (if lT then []
+       else match go_min go, go_max go with
+            | None, None => []
+            | _, _ => if Tvar then minmax_rows go (Z.of_nat k) (T *! (nth (S k) nrm o0 -! nth k nrm o0)) else []
+            end) ++ fixedr
   end.
 
 (* FreeGrid.bounds_finalize *)
